@@ -3,11 +3,12 @@
 From Coq Require Import String List NArith ZArith Bool.
 From MevVerif Require Import lib.Bytes lib.Abi lib.Keccak model.Rules model.ProviderSvc model.PreconfProvider
   check.Check_C01.
+From MevVerif Require model.EvmSend model.EvmTx.
 Import ListNotations.
 Open Scope N_scope.
 
-Definition case := Check_C01.case.
-Definition mismatches := Check_C01.mismatches.
+(* cases of the handler-level driver classes (shared with C01) *)
+Definition base_case := Check_C01.case.
 
 Definition slot_names : list string :=
   ["amount"; "blockNumber"; "txHash"; "decayStart"; "decayEnd"; "bidSignature"; "commitmentSignature"]%string.
@@ -70,9 +71,100 @@ Definition violation (c : Check_C01.case) : option string :=
       then Some "commitment-after-store-failure"%string else None
   end.
 
-Definition violations (cs : list Check_C01.case) : list (N * string) :=
+Definition base_violations (cs : list Check_C01.case) : list (N * string) :=
   flat_map (fun c => match violation c with Some k => [(Check_C01.id c, k)] | None => [] end) cs.
 
 (* non-trivial: a settlement transaction was submitted *)
-Definition nontrivial (cs : list Check_C01.case) : list N :=
+Definition base_nontrivial (cs : list Check_C01.case) : list N :=
   map Check_C01.id (filter (fun c => match o_sends (ob c) with [] => false | _ => true end) cs).
+
+(* ---- class raw-tx: the real preconfcontract.StoreCommitment / evmclient.Send over the real ethclient and a
+   JSON-RPC endpoint; every raw transaction that reached the endpoint is decoded and compared field by field
+   with model/EvmTx.v ------------------------------------------------------------------------------------- *)
+Inductive txsrc :=
+| SrcReq (r : EvmTx.txreq)              (* client.Send called directly with this request *)
+| SrcStore (amt : Z) (c : preconf).     (* StoreCommitment called with the fields of c and the amount amt *)
+Record txstep := { s_src : txsrc;
+                   s_ans : EvmTx.node_ans;          (* what the endpoint / the key signer were scripted to answer *)
+                   s_ret : N;                       (* 0: nil error, 1: error, 2: crash *)
+                   s_raw : option EvmTx.dyntx;      (* the raw transaction the endpoint received during this step, decoded *)
+                   s_raw_count : N;                 (* how many raw transactions it received during this step *)
+                   s_type : N;                      (* its transaction type *)
+                   s_sender : bytes;                (* its recovered sender *)
+                   s_est : option EvmTx.callmsg;    (* the argument of eth_estimateGas, if it was called *)
+                   s_methods : list N }.            (* foreground calls seen, in order: 1 pending nonce, 2 estimate,
+                                                       3 tip, 4 gas price, 5 raw transaction *)
+Record txcase := { t_id : N; t_chain : Z; t_owner : bytes; t_contract : bytes; t_steps : list txstep }.
+
+Inductive case := CBase (c : Check_C01.case) | CTx (t : txcase).
+Definition bases (cs : list case) : list Check_C01.case := flat_map (fun c => match c with CBase b => [b] | _ => [] end) cs.
+Definition txs (cs : list case) : list txcase := flat_map (fun c => match c with CTx t => [t] | _ => [] end) cs.
+
+Definition req_of_src (contract : bytes) (s : txsrc) : EvmTx.txreq :=
+  match s with
+  | SrcReq r => r
+  | SrcStore amt c => EvmTx.store_request contract (calldata keccak256 amt c)
+  end.
+
+Definition opt_eqb {A} (eqb : A -> A -> bool) (a b : option A) : bool :=
+  match a, b with Some x, Some y => eqb x y | None, None => true | _, _ => false end.
+Definition dyntx_eqb (a b : EvmTx.dyntx) : bool :=
+  (EvmTx.tx_chain a =? EvmTx.tx_chain b)%Z && (EvmTx.tx_nonce a =? EvmTx.tx_nonce b) &&
+  (EvmTx.tx_tip a =? EvmTx.tx_tip b)%Z && (EvmTx.tx_feecap a =? EvmTx.tx_feecap b)%Z &&
+  (EvmTx.tx_gas a =? EvmTx.tx_gas b) && opt_eqb bytes_eqb (EvmTx.tx_to a) (EvmTx.tx_to b) &&
+  (EvmTx.tx_value a =? EvmTx.tx_value b)%Z && bytes_eqb (EvmTx.tx_data a) (EvmTx.tx_data b).
+Definition callmsg_eqb (a b : EvmTx.callmsg) : bool :=
+  bytes_eqb (EvmTx.cm_from a) (EvmTx.cm_from b) && opt_eqb bytes_eqb (EvmTx.cm_to a) (EvmTx.cm_to b) &&
+  bytes_eqb (EvmTx.cm_data a) (EvmTx.cm_data b) && opt_eqb Z.eqb (EvmTx.cm_value a) (EvmTx.cm_value b).
+Definition call_code (c : EvmTx.call) : N :=
+  match c with EvmTx.CPending => 1 | EvmTx.CEstimate _ => 2 | EvmTx.CTip => 3 | EvmTx.CPrice => 4 | EvmTx.CSubmit _ => 5 end.
+Definition first_estimate (l : list EvmTx.call) : option EvmTx.callmsg :=
+  match flat_map (fun c => match c with EvmTx.CEstimate m => [m] | _ => [] end) l with m :: _ => Some m | [] => None end.
+Definition ret_of (r : EvmTx.tx_result) : N :=
+  match r with EvmTx.TAccepted _ => 0 | EvmTx.TAcceptedThenPanic _ => 2 | _ => 1 end.
+
+(* one step of the model against one observed step; the monitor of the driver's client never learns a
+   confirmed nonce above 0 (the endpoint answers 0 to NonceAt) *)
+Definition step_ok (t : txcase) (ctr : N) (s : txstep) : N * bool :=
+  let '(ctr', r, calls) := EvmTx.send_tx (t_chain t) (t_owner t) ctr 0 (req_of_src (t_contract t) (s_src s)) (s_ans s) in
+  (ctr',
+   (s_ret s =? ret_of r) && opt_eqb dyntx_eqb (s_raw s) (EvmTx.tx_of r) &&
+   (s_raw_count s =? match EvmTx.tx_of r with Some _ => 1 | None => 0 end) &&
+   match s_raw s with Some _ => (s_type s =? 2) && bytes_eqb (s_sender s) (t_owner t) | None => true end &&
+   opt_eqb callmsg_eqb (s_est s) (first_estimate calls) &&
+   list_eqb N.eqb (s_methods s) (map call_code calls)).
+Fixpoint steps_ok (t : txcase) (ctr : N) (l : list txstep) : bool :=
+  match l with
+  | [] => true
+  | s :: r => let '(ctr', ok) := step_ok t ctr s in ok && steps_ok t ctr' r
+  end.
+Definition tx_mismatches (ts : list txcase) : list N :=
+  map t_id (filter (fun t => negb (steps_ok t 0 (t_steps t))) ts).
+
+(* the property on the observation: a StoreCommitment that reported success put exactly one transaction on the
+   wire, the node took it, it goes to the configured contract and decodes to the commitment *)
+Definition step_violation (t : txcase) (s : txstep) : option string :=
+  match s_src s with
+  | SrcStore amt c =>
+      if s_ret s =? 0 then
+        match s_raw s with
+        | Some tx =>
+            if negb (EvmTx.a_submit (s_ans s)) then Some "commitment-after-store-failure"%string else
+            match send_differs (t_contract t) c (match EvmTx.tx_to tx with Some a => a | None => [] end) (EvmTx.tx_data tx) with
+            | Some k => Some (String.append "calldata-differs:" k)
+            | None => None
+            end
+        | None => Some "commitment-after-store-failure"%string
+        end
+      else None
+  | SrcReq _ => None
+  end.
+Definition tx_violations (ts : list txcase) : list (N * string) :=
+  flat_map (fun t => match flat_map (fun s => match step_violation t s with Some k => [k] | None => [] end) (t_steps t) with
+                     | k :: _ => [(t_id t, k)] | [] => [] end) ts.
+Definition tx_nontrivial (ts : list txcase) : list N :=
+  map t_id (filter (fun t => existsb (fun s => match s_raw s with Some _ => true | None => false end) (t_steps t)) ts).
+
+Definition mismatches (cs : list case) : list N := Check_C01.mismatches (bases cs) ++ tx_mismatches (txs cs).
+Definition violations (cs : list case) : list (N * string) := base_violations (bases cs) ++ tx_violations (txs cs).
+Definition nontrivial (cs : list case) : list N := base_nontrivial (bases cs) ++ tx_nontrivial (txs cs).
